@@ -1,5 +1,60 @@
 import JF.Driver.Core
+import JF.Model.Sched
 namespace JF.Driver
-/-- component `heap` (stub until its model is written) -/
-def heapComp : Comp := Comp.pure fun _ => "unimplemented"
+open JF JF.Heap JF.Sched
+
+/-- component `heap`: one session holds a `HeapScheduler` model and a `ListScheduler` model that
+receive the same operations.
+
+requests                         replies
+`reset`                          `ok`
+`push q r h`                     `<heap length> <heap size> <fault>`
+`trash h`                        `ok` | `err:SchedulerError`           (list scheduler's outcome; the heap one never fails)
+`get`                            `<H> | <L> | <heap length> <fault>` with `<X>` = `ok h q r` | `err:empty` | `err:guard h q r`
+`setmv h v`                      `ok`      (`_minimal_valid_counter[h] = v`, heap scheduler only)
+`pickle`                         `ok`      (heap scheduler replaced by `loads(dumps(·))`)
+`dump`                           `<length> <size> <fault> <n> (q r h c)*`   entries as `entry(0), entry(1), …` returns them
+`lget`                           list scheduler only: `<L>`
+-/
+structure HeapSt where
+  hs : HSched (Time Float)
+  ls : LSched (Time Float)
+
+private def st0 : HeapSt := ⟨HSched.init floatCfg, LSched.init floatCfg⟩
+
+private def showRes : GetRes (Time Float) → String
+  | .ok h t => s!"ok {h} {bits t.q} {bits t.r}"
+  | .empty => "err:empty"
+  | .guard h t => s!"err:guard {h} {bits t.q} {bits t.r}"
+
+private def showEntry (e : Entry (Time Float)) : String := s!"{bits e.key.q} {bits e.key.r} {e.h} {e.c}"
+
+private def hdr (hp : CHeap (Time Float)) : String := s!"{hp.length} {hp.mem.size} {b01 hp.fault}"
+
+def heapComp : Comp := ⟨HeapSt, st0, fun s a =>
+  match a with
+  | ["reset"] => (st0, "ok")
+  | ["push", q, r, h] =>
+      let t : Time Float := ⟨fl q, fl r⟩
+      let hs := s.hs.push floatCfg uintRange t (nat! h)
+      (⟨hs, s.ls.push t (nat! h)⟩, hdr hs.heap)
+  | ["trash", h] =>
+      let hs := s.hs.trash (nat! h)
+      match s.ls.trash (nat! h) with
+      | some ls => (⟨hs, ls⟩, "ok")
+      | none => (⟨hs, s.ls⟩, "err:SchedulerError")
+  | ["get"] =>
+      let (hs, rh) := s.hs.get floatCfg
+      let (ls, rl) := s.ls.get floatCfg
+      (⟨hs, ls⟩, showRes rh ++ " | " ++ showRes rl ++ s!" | {hs.heap.length} {b01 hs.heap.fault}")
+  | ["lget"] =>
+      let (ls, rl) := s.ls.get floatCfg
+      (⟨s.hs, ls⟩, showRes rl)
+  | ["setmv", h, v] => (⟨{ s.hs with mv := mvSet s.hs.mv (nat! h) (nat! v) }, s.ls⟩, "ok")
+  | ["pickle"] => (⟨s.hs.pickle floatCfg, s.ls⟩, "ok")
+  | ["dump"] =>
+      let (l, f) := s.hs.getstate floatCfg
+      let hp := s.hs.heap
+      (s, joinSp ([hdr { hp with fault := hp.fault || f }, toString l.length] ++ l.map showEntry))
+  | _ => (s, "bad-op")⟩
 end JF.Driver
